@@ -518,12 +518,12 @@ theorem ginv_w {s s' : St} {i : Nat} {a : WAct} (hm : MInv s) (hw : GInv s) (hs 
   · rw [e1]; intro hc
     have ht := g1 hc
     cases a with
-    | lockT => have := hgT rfl; rw [this] at ht; cases ht
+    | lockT | lockTF => have := hgT rfl; rw [this] at ht; cases ht
     | unlockT => have := hthdI.mpr (tp.mpr (Or.inr rfl)); rw [this] at ht; cases ht
     | _ => exact ht
   · rw [e1]; intro hc; apply g2
     cases a with
-    | lockT => simp [wEffect] at hc
+    | lockT | lockTF => simp [wEffect] at hc
     | unlockT => simp [wEffect] at hc
     | _ => exact hc
   · cases a with
